@@ -24,7 +24,8 @@ EXTRA_TRUSTED = [
     "tensor contents are identified by the hash of their bytes (tokens); storage identity by data_ptr() with all observed tensors kept alive",
 ]
 RULE = ("case = random history (<= 12 ops quick / <= 40 thorough) over up to 3 states, 3 RBM modules, 3 metadata dict objects and 3 files: "
-        "construct (3 state types, num_hidden/num_aux None or != num_visible, custom unitary dicts via create_dict(**extra)), external "
+        "construct (3 state types, num_hidden/num_aux None or != num_visible, custom unitary dicts via create_dict(**extra), or a caller-owned "
+        "dictionary object shared by several constructors and checked after every op), external "
         "in-place randomisation of all parameters (non-zero biases), real fit, addUnitary, mkMeta (None, {}, flat, nested, tensor-valued, "
         "reserved keys, non-string key), save, repeated save with the same dict, ModelSaver._save (dict / callable / None, metadata_only), "
         "load (compatible and incompatible), autoload (same and other state type), reinitialise; after every op all parameter tokens, "
@@ -73,6 +74,7 @@ def gen_plan(rng, maxlen):
     plan = []
     archs = []  # (kind, nv, nh, na) used so far: reused to make compatible loads likely
     states, metas, saved = {}, set(), {}
+    uds = []  # caller-owned unitary dictionaries created so far (each may be handed to SEVERAL constructors)
 
     def construct(slot):
         if archs and rng.random() < 0.45:
@@ -84,6 +86,13 @@ def gen_plan(rng, maxlen):
         ud = None
         if kind != "pos":
             ud = rng.choice([None, None, "empty", ["H"], ["H", "S"], ["X"]])
+            if rng.random() < 0.4:
+                # the caller keeps the dictionary object and passes the same one to every constructor that asks for it
+                if not uds or rng.random() < 0.3:
+                    us = len(uds)
+                    uds.append(us)
+                    plan.append({"t": "mkUD", "udslot": us, "names": rng.choice([["H"], ["H", "S"], ["X", "K"], ["S"]])})
+                ud = {"ref": rng.choice(uds)}
         states[slot] = (kind, nv, nh, na)
         return {"t": "construct", "slot": slot, "kind": kind, "nv": nv, "nh": nh, "na": na, "ud": ud}
 
@@ -191,6 +200,12 @@ class Hooks:
     def after(self, real, op, pre, err, w):
         ctx, t = self.ctx, op["t"]
         cs = self.cs(op)
+        if real.uds:
+            bad = real.changed_uds()
+            ctx.oracle("no operation changes a unitary dictionary the caller owns (keys and tensor bytes)", not bad, cs,
+                       detail={"changed_udslots": bad}, sig=f"{t}/caller-unitary-dict", theorem="C11_no_side_effect")
+            if t in ("load", "autoload", "addUnitary") and err is None:
+                ctx.count("shared_ud_checked_after_" + t)
         if t in ("write", "train") and err is None:
             self.dirty[op["slot"]] = True
         if t in ("construct", "constructFrom") and err is None:
@@ -332,6 +347,19 @@ def fixed_cases():
         c(t="construct", slot=1, kind="cplx", nv=3, nh=3, na=None, ud=None), c(t="load", slot=1, path=2),
         c(t="autoload", slot=2, kind="cplx", path=2), c(t="autoload", slot=2, kind="pos", path=2),
         c(t="saverSave", slot=0, src="callable", mdslot=0, items=MD_KINDS["nested"], metadataOnly=True, path=1), c(t="load", slot=0, path=1)]}
+
+
+    # two (three) models built from the SAME caller-owned unitary dictionary; a file whose same-named unitaries have other values is
+    # loaded into one of them: the other models and the caller's dictionary must keep theirs
+    yield {"tseed": 104, "plan": [
+        c(t="mkUD", udslot=0, names=["H", "S"]), c(t="mkUD", udslot=1, names=["H", "S"]),
+        c(t="construct", slot=0, kind="cplx", nv=2, nh=3, na=None, ud={"ref": 0}),
+        c(t="construct", slot=1, kind="cplx", nv=2, nh=3, na=None, ud={"ref": 0}),
+        c(t="construct", slot=2, kind="cplx", nv=2, nh=3, na=None, ud={"ref": 1}), c(t="write", slot=2, net="rbm_am"), c(t="addUnitary", slot=2, name="K"),
+        c(t="save", slot=2, md=None, path=0), c(t="load", slot=0, path=0), c(t="save", slot=1, md=None, path=1),
+        c(t="addUnitary", slot=0, name="H"), c(t="save", slot=0, md=None, path=2), c(t="load", slot=1, path=2),
+        c(t="construct", slot=2, kind="dens", nv=2, nh=3, na=1, ud={"ref": 0}), c(t="autoload", slot=0, kind="cplx", path=1),
+        c(t="load", slot=0, path=0), c(t="reinit", slot=0), c(t="save", slot=0, md=None, path=0)]}
 
 
 def gen_cases(ctx, thorough, ncases=None):
